@@ -11,7 +11,7 @@ Proof.
   revert e acc ia. induction b1 as [|c b1 IH]; intros e acc ia; [reflexivity|].
   cbn [app scan]. destruct e as [| |q].
   - destruct (is_quote c); [apply IH|]. destruct (c =? 92); [apply IH|].
-    destruct (is_ws c); [|apply IH]. destruct (nonempty acc); [reflexivity|apply IH].
+    destruct (is_ws c); [|apply IH]. destruct ia; [reflexivity|apply IH].
   - apply IH.
   - destruct (c =? q); apply IH.
 Qed.
